@@ -28,7 +28,7 @@ def case(g, tier, ci):
     ops = [{"op": "sq.new", "id": "s"}, {"op": "sq.setSR", "id": "s", "v": enc(SR)}]
     if r.random() < 0.5:
         ops.append({"op": "sq.setName", "id": "s", "name": r.choice(["myseq", "x", ""])})
-    fp = r.choice([0.0, 0.5, 1.0])
+    fp = r.choice([0.0, 0.5, 0.5, 0.5, 1.0])      # mostly: some channels flagged, their neighbours not
     adding = list(range(1, P + 1))
     if r.random() < 0.3:
         r.shuffle(adding)       # positions may be filled in any order
